@@ -135,6 +135,8 @@ func Wrap[V any](it interface {
 type Entry struct {
 	Name  string
 	Arity int
+	Args  [][]int // per parameter: the values the driver may pass
+	Inf   bool    // may yield forever: the consumer truncates
 	New   func(args []int) Iter // generator entry: returns a fresh iterator
 	Call  func(args []int) int  // plain entry (consumer / bystander): runs to completion
 }
